@@ -235,8 +235,11 @@ def _classify(path, bufname):
     ev = path['events']
     appended = sum(1 for e in ev if e.endswith('.append(char)'))
     extra = sum(1 for e in ev if '.append(text[pos])' in e)
-    pushback = any(e.replace(' ', '') == 'pos-=1' for e in ev)
     consumed = sum(1 for e in ev if e.replace(' ', '') == 'pos+=1')
+    dec = sum(1 for e in ev if e.replace(' ', '') == 'pos-=1')
+    # the character is left for whoever reads next iff the cursor has not
+    # moved past it: consumed and put back, or only peeked at
+    pushback = consumed - dec <= 0
     emits = [e for e in ev if 'Node(' in e or e.startswith('yield ')
              or '= Node(' in e]
     return appended, extra, pushback, consumed, emits
